@@ -17,6 +17,23 @@ PROPS = {
     },
 }
 
+PROPS["C02"] = {
+    "technique": "Verus contracts on the extracted frame layer (Frame::decode, FrameDecoder, FrameStream, BufList/Cursor) against an RFC 9114 §7.1 spec function; Kani for VarInt::decode",
+    "text": "Unbounded deductive proof, function by function: BufList/Cursor are proved to implement the Buf contract with view = concatenation of chunks (unit buf); Frame::decode, FrameDecoder::decode, BufRecvStream::poll_read, FrameStream::{try_recv,poll_next,poll_data} are proved against that contract only, so chunk boundaries cannot influence any result; postconditions state exact consumption (header + declared length), skipping of unknown frames in full, Malformed for payloads longer/shorter than the fixed fields, UnexpectedEnd for a frame or DATA payload cut by FIN, the decoder memo never hiding a whole frame, and no Pending after FIN.",
+    "note": "Assumes the bytes::Buf/Bytes/Take contracts (units/inc/buf_trait.rs, take_shim.rs), VecDeque front/front_mut specs, std Poll/From identity specs, that a transport never yields an empty chunk, VarInt::decode's contract for arbitrary Buf (proved by Kani for &[u8]), Settings::decode consuming its payload (unit settings_decode). The mapping FrameProtocolError -> H3_FRAME_ERROR / H3_FRAME_UNEXPECTED codes is checked in the units of C03/C04/C07. Loops that end only when the transport answers Pending are proved for partial correctness.",
+    "design_ref": "§4 C02, §7c",
+    "trusted_base": COMMON_TB + ["bytes::{Buf,Bytes,Take} contracts (inc/buf_trait.rs, inc/take_shim.rs)", "quic::RecvStream weakest contract with non-empty chunks (inc/quic_recv.rs)", "std: VecDeque::front/front_mut, Poll Try/FromResidual, reflexive From (assume_specification)", "inc/vdec.rs = kani/_spec.rs spec_varint_dec (RFC 9000 §16)"],
+    "assumptions": ["transport chunks are never empty", "usize is 64 bits", "Settings::decode reads its payload to the end when it succeeds (proved in unit settings_decode)"],
+}
+PROPS["C17"] = {
+    "technique": "Verus contracts on the extracted h3-quinn adapter against an assumed Quinn contract",
+    "text": "Unbounded deductive proof of the adapter's own logic: the poll_ready write loop conserves and completes the buffer for every sequence of partial write results, send_data refuses while a write is unfinished, stream ids are fixed at construction and reported without precondition, the Quinn error tables are total and preserve the peer's codes, every read is ordered.",
+    "note": "Relative to Quinn: poll_write/read_chunk/stop/reset/finish/id are assumed to behave as documented (enum shims pinned by units/quinn_adapter.shimcheck.rs); the async read block is replaced by a shim future (rule R19 via //@subst); no concrete replay without a live endpoint (demo test in findings/C17_recv_id_pending uses a loopback).",
+    "design_ref": "§4 C17",
+    "trusted_base": COMMON_TB + ["assumed quinn 0.11 contract (mod quinn in units/quinn_adapter.rs.in)", "ReusableBoxFuture / read_chunk future shim", "WriteBuf / EncodedDatagram as opaque Buf (C14/C18 harnesses)"],
+    "assumptions": ["Quinn behaves as documented, flow control included", "&mut self exclusivity (no concurrent access to one stream handle)"],
+}
+
 NOT_YET = "unit not built yet in this round (see DESIGN §8 order of work)"
 for _id in ["C01", "C02", "C03", "C04", "C05", "C06", "C07", "C08", "C09", "C10", "C11", "C12", "C13", "C14", "C15", "C17", "C18", "C19"]:
     PROPS.setdefault(_id, {"not_applicable": NOT_YET})
